@@ -53,10 +53,13 @@ def run(ctx):
     def check_file(c):
         r = random.Random(c["seed"])
         recs, text, index = make_fasta(r, c["n"], c["maxlen"], c["width"], c["eol"], True, c["final_newline"])
-        path = ctx.path("x.fa")
+        # half of the cases write their FASTA to a path that held another FASTA before (the old index file is removed, as a user replacing a file would)
+        path = ctx.reuse_path("x.fa") if c["seed"] % 2 else ctx.path("x.fa")
+        fai = path + ".fai"
+        if os.path.exists(fai):
+            os.remove(fai)
         with open(path, "w", newline="") as f:
             f.write(text)
-        fai = path + ".fai"
         tag = "crlf" if c["eol"] != "\n" else ("nonl" if not c["final_newline"] else "lf")
         src = c["index"]
         if src == "harness":
@@ -66,10 +69,19 @@ def run(ctx):
             idx = IndexedFasta(path)
         else:
             idx = bnp.open_indexed(path)
-            rows = [l.rstrip("\n").split("\t") for l in open(fai)]
+            if not os.path.exists(fai):
+                # the same path held another FASTA a moment ago (every case of a shard writes x.fa anew): an index must be built for THIS file
+                ctx.check("fai-rows", False, "fai-index-rows:no-index-written-for-a-path-used-before", "open_indexed(%s) wrote no .fai for the file now at that path" % os.path.basename(path), dict(c, text=text), None)
+                rows = []
+            else:
+                rows = [l.rstrip("\n").split("\t") for l in open(fai)]
             got = [(x[0], int(x[1]), int(x[2]), int(x[3]), int(x[4])) for x in rows]
             multi = any(len(s) > c["width"] for _, s in recs)
             cols = ["name", "length", "offset", "linebases", "linewidth"]
+            if not c["final_newline"] and got and len(recs[-1][1]) <= c["width"] and len(got) == len(index):
+                # the last record is one unterminated line: the file does not determine its bytes-per-line (any value >= its length serves random access)
+                if got[-1][4] >= got[-1][3]:
+                    got[-1] = got[-1][:4] + (index[-1][4],)
             diffcols = sorted({cols[i] for a, b in zip(got, index) for i in range(5) if a[i] != b[i]}) or (["row-count"] if len(got) != len(index) else [])
             if diffcols == ["name"] and all(a[0].split()[0] == b[0] for a, b in zip(got, index)):
                 diffcols = ["name-includes-description"]
@@ -138,8 +150,8 @@ def run(ctx):
         for rep in range(ctx.pick(3, 30)):
             cases.append({"seed": gen.randrange(2 ** 30), "n": gen.randint(1, 4), "maxlen": 25, "width": width, "eol": "\n", "final_newline": gen.random() < 0.8,
                           "index": "library" if rep % 3 else "harness", "max_iv": 2000, "genome": rep % 2 == 0})
-    for rep in range(ctx.pick(8, 100)):
-        cases.append({"seed": gen.randrange(2 ** 30), "n": gen.randint(1, 3), "maxlen": 25, "width": gen.randint(1, W), "eol": "\r\n", "final_newline": True, "index": "library", "max_iv": 2000})
+    for rep in range(ctx.pick(24, 200)):
+        cases.append({"seed": gen.randrange(2 ** 30), "n": gen.randint(1, 3), "maxlen": 25, "width": gen.randint(1, W), "eol": "\r\n", "final_newline": gen.random() < 0.6, "index": "library", "max_iv": 2000})
     for rep in range(ctx.pick(6, 60)):
         cases.append({"seed": gen.randrange(2 ** 30), "n": gen.randint(2, 6), "maxlen": 400, "width": gen.choice([60, 70, 80]), "eol": "\n", "final_newline": True, "index": "library", "max_iv": 600, "genome": True})
     for c in ctx.mine(cases):
